@@ -79,16 +79,20 @@ structure Cal where
 /-- the calendar facts used by the proofs, at one day `d` -/
 structure Cal.OkAt (c : Cal) (d : Int) : Prop where
   le : c.monthStart d ≤ d
+  span : d < c.monthStart d + 32
   idem : c.monthStart (c.monthStart d) = c.monthStart d
   inYear : c.monthStartIn (c.yearStart d) (c.monthNo d) = c.monthStart d
+  next : d < c.monthNext (c.monthStart d)
 
 def Cal.okAtB (c : Cal) (d : Int) : Bool :=
-  decide (c.monthStart d ≤ d) && decide (c.monthStart (c.monthStart d) = c.monthStart d)
+  decide (c.monthStart d ≤ d) && decide (d < c.monthStart d + 32)
+    && decide (c.monthStart (c.monthStart d) = c.monthStart d)
     && decide (c.monthStartIn (c.yearStart d) (c.monthNo d) = c.monthStart d)
+    && decide (d < c.monthNext (c.monthStart d))
 
 theorem Cal.okAt_of_okAtB (c : Cal) (d : Int) (h : c.okAtB d = true) : c.OkAt d := by
   simp only [Cal.okAtB, Bool.and_eq_true, decide_eq_true_eq] at h
-  exact ⟨h.1.1, h.1.2, h.2⟩
+  exact ⟨h.1.1.1.1, h.1.1.1.2, h.1.1.2, h.1.2, h.2⟩
 
 /-- day number of a millisecond timestamp (`t ≥ 0`) -/
 def dayNo (t : Int) : Int := t / oneDay
